@@ -65,7 +65,9 @@ type shortHeaderPacket struct {
 	KeyPhase        protocol.KeyPhaseBit
 }
 
-func (p *shortHeaderPacket) IsAckEliciting() bool { return ackhandler.HasAckElicitingFrames(p.Frames) }
+func (p *shortHeaderPacket) IsAckEliciting() bool {
+	return len(p.StreamFrames) > 0 || ackhandler.HasAckElicitingFrames(p.Frames)
+}
 
 type coalescedPacket struct {
 	buffer         *packetBuffer
@@ -92,7 +94,9 @@ func (p *longHeaderPacket) EncryptionLevel() protocol.EncryptionLevel {
 	}
 }
 
-func (p *longHeaderPacket) IsAckEliciting() bool { return ackhandler.HasAckElicitingFrames(p.frames) }
+func (p *longHeaderPacket) IsAckEliciting() bool {
+	return len(p.streamFrames) > 0 || ackhandler.HasAckElicitingFrames(p.frames)
+}
 
 type packetNumberManager interface {
 	PeekPacketNumber(protocol.EncryptionLevel) (protocol.PacketNumber, protocol.PacketNumberLen)
